@@ -270,7 +270,8 @@ const (
 	HeadBogus      = 4 // validly signed, but the hash is not the log's (a lying server)
 	HeadExtraSig   = 5 // good signature followed by a signature of an unknown key: accepted
 	HeadTextExtra  = 6 // tree text with an extra fourth line, validly signed: accepted
-	headKindsCount = 7
+	HeadSmuggled   = 7 // signed by the other key only, with go.sum lines for the looked-up module smuggled into the note text
+	headKindsCount = 8
 )
 
 // SumHead is a tree head the harness signed with the good key.
@@ -437,8 +438,25 @@ func (w *SumWorld) HeadMsg(side int, n int64, kind int) []byte {
 	case HeadTextExtra:
 		t2 := text + "extra line\n"
 		return w.signText(side, n, h, t2).Msg
+	case HeadSmuggled:
+		return w.SmuggledMsg(side, n, "smuggled.test/m", "v0.0.0")
 	}
 	panic("bad head kind")
+}
+
+// SmuggledMsg is a note signed only by the other key whose text carries, after the tree
+// description, go.sum lines for (path, vers): nothing in it is authenticated for the client.
+func (w *SumWorld) SmuggledMsg(side int, n int64, path, vers string) []byte {
+	lg := w.Logs[side]
+	if n > int64(lg.Len()) {
+		n = int64(lg.Len())
+	}
+	text := sumTreeText(n, lg.Root(n)) + fmt.Sprintf("%s %s h1:SMUGGLED\n%s %s/go.mod h1:SMUGGLED\n", path, vers, path, vers)
+	line, sig := sumSigLine(w.Bad, w.Bad.Hash, text)
+	w.mu.Lock()
+	w.addPair(w.Bad, text, sig)
+	w.mu.Unlock()
+	return []byte(text + "\n" + line)
 }
 
 // SignedByText finds the registered head whose signed text is text.
@@ -610,11 +628,25 @@ type SumScenario struct {
 	Note    string        `json:"note,omitempty"`
 }
 
-// SumPar makes steps Step and Step+1 overlap: step Step is started in its own goroutine and
-// parked when it issues its first ReadRemote (Kind "rr") or ReadCache (Kind "rc") of Path;
-// step Step+1 then runs to completion, after which step Step is released.  (Which lookup an
-// operation belongs to is found from the goroutine that issued it or that created its goroutine.)
+// SumPar makes the steps Step .. Step+Count overlap (Count 0 means 1).  The steps of the window
+// are started one after the other, each in its own goroutine; a step that has a park point is
+// held when it issues its first operation (Kind, Path) — Kind "rr" ReadRemote, "rc" ReadCache,
+// "rcfg" ReadConfig, "wcfg" WriteConfig; the operation itself is performed after the release —
+// and the next step is started once the previous one is parked or finished.  When all are
+// started the parked steps are released in the order Release (default: ascending), each
+// running to completion before the next is released.  (Which lookup an operation belongs to
+// is found from the goroutine that issued it or that created its goroutine.)
 type SumPar struct {
+	Step    int       `json:"step"`
+	Kind    string    `json:"kind"`
+	Path    string    `json:"path"`
+	Count   int       `json:"count,omitempty"`
+	More    []SumPark `json:"more,omitempty"`
+	Release []int     `json:"release,omitempty"`
+}
+
+// SumPark is a further park point of a SumPar window.
+type SumPark struct {
 	Step int    `json:"step"`
 	Kind string `json:"kind"`
 	Path string `json:"path"`
@@ -626,6 +658,12 @@ func (s SumScenario) Clone() SumScenario {
 	t.Steps = append([]SumStep(nil), s.Steps...)
 	t.Faults = append([]SumFault(nil), s.Faults...)
 	t.Interf = append([]SumInterf(nil), s.Interf...)
+	if s.Par != nil {
+		p := *s.Par
+		p.More = append([]SumPark(nil), s.Par.More...)
+		p.Release = append([]int(nil), s.Par.Release...)
+		t.Par = &p
+	}
 	return t
 }
 
@@ -684,9 +722,10 @@ type sumOps struct {
 
 	// overlapping lookups (SumPar)
 	byGo     map[int64]int // lookup goroutine -> step
-	parked   bool
-	parkedCh chan struct{}
-	release  chan struct{}
+	parks    map[int]SumPark
+	parkedCh map[int]chan struct{}
+	release  map[int]chan struct{}
+	parkUsed map[int]bool
 }
 
 var goidRE = regexp.MustCompile(`^goroutine (\d+) `)
@@ -725,21 +764,24 @@ func sumGoid() int64 {
 	return -1
 }
 
-// maybePark parks the calling operation if it is the one the scenario names.
+// maybePark parks the calling operation if it is the one the scenario names for its step.
 func (o *sumOps) maybePark(kind, path string) {
-	p := o.sc.Par
-	if p == nil {
+	if o.sc.Par == nil {
 		return
 	}
 	o.mu.Lock()
-	hit := !o.parked && p.Kind == kind && p.Path == path && o.callerStep() == p.Step && o.parkedCh != nil
+	st := o.callerStep()
+	p, ok := o.parks[st]
+	hit := ok && !o.parkUsed[st] && p.Kind == kind && p.Path == path && o.parkedCh[st] != nil
+	var rel chan struct{}
 	if hit {
-		o.parked = true
-		close(o.parkedCh)
+		o.parkUsed[st] = true
+		close(o.parkedCh[st])
+		rel = o.release[st]
 	}
 	o.mu.Unlock()
 	if hit {
-		<-o.release
+		<-rel
 	}
 }
 
@@ -768,6 +810,9 @@ func (o *sumOps) honest(v SumView, path string) ([]byte, bool) {
 		id, ok := lg.Find(strings.TrimPrefix(path, "/lookup/"), v.HeadN)
 		if !ok {
 			return nil, false
+		}
+		if v.HeadKind == HeadSmuggled {
+			return append(lg.Record(id), w.SmuggledMsg(v.HeadSide, v.HeadN, lg.Paths[id], lg.Vers[id])...), true
 		}
 		return append(lg.Record(id), w.HeadMsg(v.HeadSide, v.HeadN, v.HeadKind)...), true
 	case strings.HasPrefix(path, "/tile/"):
@@ -930,6 +975,7 @@ func (o *sumOps) ReadRemote(path string) ([]byte, error) {
 }
 
 func (o *sumOps) ReadConfig(file string) ([]byte, error) {
+	o.maybePark("rcfg", file)
 	o.mu.Lock()
 	defer o.mu.Unlock()
 	data, ok := o.config[file]
@@ -942,6 +988,7 @@ func (o *sumOps) ReadConfig(file string) ([]byte, error) {
 }
 
 func (o *sumOps) WriteConfig(file string, old, new []byte) error {
+	o.maybePark("wcfg", file)
 	o.mu.Lock()
 	defer o.mu.Unlock()
 	k := o.nwcfg
@@ -1151,37 +1198,76 @@ func RunSumScenario(sc SumScenario) *SumRun {
 			lookup(i)
 			continue
 		}
-		// steps i and i+1 overlap
+		// the steps i .. last overlap
+		last := i + sc.Par.Count
+		if sc.Par.Count <= 0 {
+			last = i + 1
+		}
+		if last >= len(sc.Steps) {
+			last = len(sc.Steps) - 1
+		}
 		ops.mu.Lock()
 		ops.byGo = map[int64]int{}
-		ops.parkedCh = make(chan struct{})
-		ops.release = make(chan struct{})
+		ops.parks = map[int]SumPark{sc.Par.Step: {Step: sc.Par.Step, Kind: sc.Par.Kind, Path: sc.Par.Path}}
+		for _, p := range sc.Par.More {
+			ops.parks[p.Step] = p
+		}
+		ops.parkedCh = map[int]chan struct{}{}
+		ops.release = map[int]chan struct{}{}
+		ops.parkUsed = map[int]bool{}
+		for st := range ops.parks {
+			ops.parkedCh[st] = make(chan struct{})
+			ops.release[st] = make(chan struct{})
+		}
 		ops.mu.Unlock()
-		d1 := inGoroutine(i)
-		select {
-		case <-ops.parkedCh:
-			time.Sleep(2 * time.Millisecond) // let the other reads of the parked batch finish
-			d2 := inGoroutine(i + 1)
+		done := map[int]chan struct{}{}
+		isParked := map[int]bool{}
+		for st := i; st <= last; st++ {
+			done[st] = inGoroutine(st)
+			pc := ops.parkedCh[st] // nil (blocks for ever) for a step without a park point
 			select {
-			case <-d2:
-				close(ops.release)
+			case <-pc:
+				isParked[st] = true
+				time.Sleep(2 * time.Millisecond) // let the other reads of the parked batch finish
+			case <-done[st]:
 			case <-time.After(60 * time.Millisecond):
-				// lookup i+1 waits for the very tile whose read is parked (parCache): let go
-				close(ops.release)
-				<-d2
+				// blocked on something a parked step holds (parCache entry of a parked tile read)
 			}
-			<-d1
-		case <-d1:
-			// the named operation never happened: run the next step after it
-			ops.mu.Lock()
-			ops.parked = true
-			ops.mu.Unlock()
-			<-inGoroutine(i + 1)
+		}
+		order := sc.Par.Release
+		if len(order) == 0 {
+			for st := i; st <= last; st++ {
+				order = append(order, st)
+			}
+		}
+		released := map[int]bool{}
+		rel := func(st int) {
+			if ch, ok := ops.release[st]; ok && !released[st] {
+				released[st] = true
+				close(ch)
+			}
+		}
+		for _, st := range order {
+			if st < i || st > last {
+				continue
+			}
+			rel(st)
+			select {
+			case <-done[st]:
+			case <-time.After(60 * time.Millisecond):
+			}
+		}
+		for st := i; st <= last; st++ {
+			rel(st)
+		}
+		for st := i; st <= last; st++ {
+			<-done[st]
 		}
 		ops.mu.Lock()
 		ops.byGo = nil
+		ops.parks = nil
 		ops.mu.Unlock()
-		i++
+		i = last
 	}
 	run.Config = ops.config
 	run.Cache = ops.cache
